@@ -125,6 +125,23 @@ func runC11(seed int64, n int, out, backendSpec string) *RunReport {
 				}
 			}
 		}
+		// documents holding a single time and nothing else (the encoder's choice of msgpack ext format depends
+		// on the payload length: zones with a seconds part are longer)
+		for ti, tv := range poolTimes() {
+			for variant := 0; variant < 2; variant++ {
+				id := fmt.Sprintf("%08x-7777-4000-8000-%012x", ti, variant)
+				var m map[string]interface{}
+				if variant == 0 {
+					m = map[string]interface{}{"_id": id, "t": tv}
+				} else {
+					m = map[string]interface{}{"_id": id, "l": []interface{}{[]interface{}{tv}}}
+				}
+				if r := rec(&Op{Kind: "Insert", Coll: "c", Docs: []map[string]interface{}{m}}); errKind(r) == "e0" {
+					inserted[id] = m
+					order = append(order, id)
+				}
+			}
+		}
 		check("before reopen")
 		rec(&Op{Kind: "Reopen"})
 		check("after reopen")
